@@ -3,6 +3,7 @@ import DS.Driver.VMapD
 import DS.Driver.ErrFmtD
 import DS.Driver.StrLitD
 import DS.Driver.JsonD
+import DS.Driver.DetailD
 open DS.Driver
 
 def dispatch (line : String) : String :=
@@ -15,6 +16,7 @@ def dispatch (line : String) : String :=
     else if t == "errfmt" then errfmtLine toks
     else if t == "strscan" || t == "strescape" then strlitLine toks
     else if t == "jsondecm" || t == "jsonmapm" then jsonLine toks
+    else if t == "detail" then detailLine toks
     else "bad-op"
 
 partial def loop (hin : IO.FS.Stream) (hout : IO.FS.Stream) : IO Unit := do
